@@ -1,14 +1,14 @@
 """Per-property configuration of the checks (which harness entry points, shards, budgets)."""
 
 
-def part(test, pkg=".", race=False, q=4, t=16, tq=600, tt=5400, env=None):
+def part(test, pkg=".", race=False, q=16, t=16, tq=900, tt=5400, env=None):
     return {"test": test, "pkg": pkg, "race": race, "shards": {"quick": q, "thorough": t},
             "timeout": {"quick": tq, "thorough": tt}, "env": env or {}}
 
 
 PROPS = {
     "C17": {
-        "parts": [part("TestVerifC17", q=8, t=16)],
+        "parts": [part("TestVerifC17", q=16, t=16)],
         "level": "exploration",
         "engine": "E7 refmodel",
         "level_text": "Exhaustive runtime evaluation of the candidate priority functions over every TCP offset x type x network x tcptype x relay protocol "
@@ -29,7 +29,7 @@ PROPS = {
 }
 
 PROPS["C16"] = {
-    "parts": [part("TestVerifC16", q=8, t=16)],
+    "parts": [part("TestVerifC16", q=16, t=16)],
     "level": "exploration",
     "engine": "E7 refmodel",
     "technique": "law-based runtime monitor (round-trip, reflexivity, symmetry, DeepEqual=>Equal, codec inverse, size rejection) over seeded generated candidates, mutated/random texts and attribute byte strings, panics recovered per case",
@@ -45,7 +45,7 @@ PROPS["C16"] = {
 }
 
 PROPS["C19"] = {
-    "parts": [part("TestVerifC19", q=8, t=16)],
+    "parts": [part("TestVerifC19", q=16, t=16)],
     "level": "exploration",
     "engine": "E7 refmodel",
     "technique": "reference-model monitor: generated rule lists x all lookup keys of small pools, real mapper vs an independent implementation of the documented precedence; constructor-validity oracle; three construction paths",
@@ -60,7 +60,7 @@ PROPS["C19"] = {
 }
 
 PROPS["C14"] = {
-    "parts": [part("TestVerifC14", q=8, t=16)],
+    "parts": [part("TestVerifC14", q=16, t=16)],
     "level": "exploration",
     "engine": "E6 tcpmon",
     "technique": "round-trip monitor over a re-chunking net.Conn (seeded stream partitions) + differential check against a reference RFC 4571 deframer on truncated/hostile streams, with an over-read monitor; real loopback TCP for activeTCPConn",
@@ -75,7 +75,7 @@ PROPS["C14"] = {
 }
 
 PROPS["C01"] = {
-    "parts": [part("TestVerifC01", q=8, t=16, tq=900)],
+    "parts": [part("TestVerifC01", q=16, t=16, tq=900)],
     "level": "exploration",
     "engine": "E1 simnet",
     "technique": "deterministic two-agent simulation of the real agents over an in-memory switch with a harness-driven scheduler (parked check ticker, per-datagram deliver/drop/duplicate), convergence/mirror oracle computed from the harness topology, monitors after every step",
@@ -88,7 +88,7 @@ PROPS["C01"] = {
 }
 
 PROPS["C03"] = {
-    "parts": [part("TestVerifC03", q=8, t=16, tq=900)],
+    "parts": [part("TestVerifC03", q=16, t=16, tq=900)],
     "level": "exploration",
     "engine": "E1 simnet",
     "technique": "shadow wire-log monitor: after every simulation step a change of the selected pair must be backed by datagrams the harness itself decoded and integrity-checked (own answered check + nomination); every emitted request is classified by role",
@@ -101,7 +101,7 @@ PROPS["C03"] = {
     "assumptions": ["static 1:1 NAT", "timeouts disabled so nothing depends on the wall clock"],
 }
 PROPS["C06"] = {
-    "parts": [part("TestVerifC06", q=8, t=16, tq=900)],
+    "parts": [part("TestVerifC06", q=16, t=16, tq=900)],
     "level": "exploration",
     "engine": "E1 simnet",
     "technique": "structural-invariant monitor: after every simulation step the checklist, id index, candidate maps and pending transactions are walked inside a task-loop task and cross-checked with the public views; before/after comparison around every prflx supersession and Restart",
@@ -112,7 +112,7 @@ PROPS["C06"] = {
     "assumptions": ["pair ids are compared within one generation (shadow map reset at Restart)"],
 }
 PROPS["C04"] = {
-    "parts": [part("TestVerifC04", q=8, t=16, tq=900)],
+    "parts": [part("TestVerifC04", q=16, t=16, tq=900)],
     "level": "exploration",
     "engine": "E1 simnet",
     "technique": "online automaton over the connection-state callback log after every simulation step + interval-sound timing samples (last-received instant set explicitly, monotonic readings bracket the synchronous tick, judged only when the whole silence interval is on one side of every threshold)",
@@ -126,7 +126,7 @@ PROPS["C04"] = {
     "assumptions": ["time.Now() readings around a synchronous tick bound the instant at which the agent read the clock"],
 }
 PROPS["C07"] = {
-    "parts": [part("TestVerifC07", q=8, t=16, tq=900)],
+    "parts": [part("TestVerifC07", q=16, t=16, tq=900)],
     "level": "exploration",
     "engine": "E1 simnet",
     "technique": "conservation monitor over uniquely tagged payloads: the switch observes socket and destination of every written payload, the harness decides eligibility of every inbound datagram from its own knowledge, and the multiset read from Conn must equal the eligible deliveries; byte/packet counters compared with the harness tally",
@@ -137,7 +137,7 @@ PROPS["C07"] = {
     "assumptions": ["a payload 'parses as STUN' iff stun.IsMessage accepts it"],
 }
 PROPS["C20"] = {
-    "parts": [part("TestVerifC20", q=8, t=16, tq=900)],
+    "parts": [part("TestVerifC20", q=16, t=16, tq=900)],
     "level": "exploration",
     "engine": "E1 simnet",
     "technique": "reference-model monitor (strict running maximum of delivered nomination values and its pair) evaluated after every delivery in a scripted-peer session, plus a two-agent quiescence oracle (mirror image of the pair that carried the highest delivered value) with the scheduler permuting requests and responses",
@@ -149,7 +149,7 @@ PROPS["C20"] = {
     "assumptions": ["default nomination value generator (1,2,3,...) on the controlling agent"],
 }
 PROPS["C02"] = {
-    "parts": [part("TestVerifC02", q=8, t=16, tq=900)],
+    "parts": [part("TestVerifC02", q=16, t=16, tq=900)],
     "level": "exploration",
     "engine": "E1 simnet",
     "technique": "differential monitor: full agent snapshot (pairs, candidates with liveness stamps, outstanding transactions, selection, state, role), emitted-datagram count and callback logs compared before/after ONE forged STUN message delivered through a real socket endpoint",
@@ -194,8 +194,8 @@ def c10_post(outdir, merged, gobin, env):
 
 PROPS["C10"] = {
     "post": c10_post,
-    "parts": [part("TestVerifC10Loop", pkg="./internal/taskloop", race=True, q=8, t=16, tq=900),
-              part("TestVerifC10API", race=True, q=8, t=16, tq=600, tt=7200)],
+    "parts": [part("TestVerifC10Loop", pkg="./internal/taskloop", race=True, q=16, t=16, tq=900),
+              part("TestVerifC10API", race=True, q=16, t=16, tq=600, tt=7200)],
     "level": "exploration",
     "engine": "E2 loopmon + E3 apihammer",
     "technique": "Go race detector over hostile concurrent workloads + history monitor of the task loop (global atomic sequence numbers on task start/end, Run return and Close return; overlap counter) with seeded pauses at hook H2 + porcupine linearizability check of the credential operations",
@@ -206,7 +206,7 @@ PROPS["C10"] = {
     "assumptions": ["the race detector only reports races that actually occur in the executions produced"],
 }
 PROPS["C11"] = {
-    "parts": [part("TestVerifC11", race=True, q=8, t=16, tq=900)],
+    "parts": [part("TestVerifC11", race=True, q=16, t=16, tq=900)],
     "level": "exploration",
     "engine": "E4 lifecycle (notifier part)",
     "technique": "history monitor of each callback stream (unique event ids, overlap counter, sequence numbers around Close) over the real handlerNotifier with hostile handler latencies, re-entrant handlers and seeded pauses at hook H2, under the race detector; grammar check of the OnCandidate log across gather cycles with held STUN replies and Restart",
@@ -217,7 +217,7 @@ PROPS["C11"] = {
     "assumptions": ["events are enqueued by one goroutine at a time, as the agent loop does"],
 }
 PROPS["C12"] = {
-    "parts": [part("TestVerifC12", race=True, q=8, t=16, tq=900)],
+    "parts": [part("TestVerifC12", race=True, q=16, t=16, tq=900)],
     "level": "exploration",
     "engine": "E5 muxmon",
     "technique": "model-based runtime monitor: random operation sequences on the real UDPMuxDefault over a fake shared socket, compared after every operation with a reference routing table (per-connection FIFO, address bindings); concurrent histories under the race detector with a schedule-independent oracle",
@@ -229,7 +229,7 @@ PROPS["C12"] = {
     "assumptions": ["'after it is removed' covers RemoveConnByUfrag while handles are still open"],
 }
 PROPS["C13"] = {
-    "parts": [part("TestVerifC13", race=True, q=8, t=16, tq=900)],
+    "parts": [part("TestVerifC13", race=True, q=16, t=16, tq=900)],
     "level": "exploration",
     "engine": "E5 muxmon",
     "technique": "race detector + quiescence assertions over concurrent handle histories (Close counter on a fake underlying connection, real UDP/TCP mux handles) and over the write-abort state machine (fake shared socket that blocks writes until a deadline is set, logs every SetWriteDeadline, optionally fails it) with seeded pauses at the H2 windows",
@@ -240,7 +240,7 @@ PROPS["C13"] = {
     "assumptions": ["a write deadline left in the past makes later writes fail (as on a kernel socket)"],
 }
 PROPS["C18"] = {
-    "parts": [part("TestVerifC18", q=8, t=16, tq=900)],
+    "parts": [part("TestVerifC18", q=16, t=16, tq=900)],
     "level": "exploration",
     "engine": "E4 lifecycle",
     "technique": "reference-model monitor over real gather cycles on a fake transport.Net: published candidates and opened sockets compared with a reference set computed from (configuration, interface table, effective mDNS mode, mux presence); cycle-control assertions; Restart race with seeded pauses at hook H2",
@@ -252,7 +252,7 @@ PROPS["C18"] = {
     "assumptions": ["effective mDNS mode is read from the agent after construction (opportunistic mDNS may fall back to disabled)"],
 }
 PROPS["C09"] = {
-    "parts": [part("TestVerifC09", q=8, t=16, tq=900)],
+    "parts": [part("TestVerifC09", q=16, t=16, tq=900)],
     "level": "fault_enumeration",
     "engine": "E4 lifecycle",
     "technique": "resource-tally monitor (every socket of the fake transport.Net, every mux handle, every TURN client / relay allocation has an identity and a close counter) asserted at the quiescent points named by the statement, over scripted lifetimes that enumerate the cut point of Restart/Close against each in-flight STUN exchange under injected faults",
@@ -264,7 +264,7 @@ PROPS["C09"] = {
     "assumptions": ["mDNS sockets belong to the agent's lifetime, not to a generation: judged at Close only"],
 }
 PROPS["C15"] = {
-    "parts": [part("TestVerifC15", race=True, q=8, t=16, tq=900)],
+    "parts": [part("TestVerifC15", race=True, q=16, t=16, tq=900)],
     "level": "exploration",
     "engine": "E6 tcpmon",
     "technique": "conservation/ordering monitor over real loopback TCP (every packet tagged with client id and counter; per-ufrag reads must equal what was addressed to that ufrag, in per-client order, with the client's address; tagged replies must return on the sender's socket), hostile-client disconnection check, post-Close census of listener, client connections, mux goroutines and file descriptors; race detector on",
@@ -275,7 +275,7 @@ PROPS["C15"] = {
     "assumptions": ["loopback TCP works in the sandbox"],
 }
 PROPS["C08"] = {
-    "parts": [part("TestVerifC08", race=True, q=8, t=16, tq=420, tt=3600)],
+    "parts": [part("TestVerifC08", race=True, q=16, t=16, tq=420, tt=3600)],
     "level": "fault_enumeration",
     "engine": "E4 lifecycle",
     "technique": "crash-point style fault enumeration of Close over a scripted agent lifetime with a stuck detector (two identical goroutine dumps) as the verdict, parked-caller release check, post-close API sweep (closed error, no datagram, no callback) and goroutine census by creation site; race detector on",
@@ -286,7 +286,7 @@ PROPS["C08"] = {
     "assumptions": ["goroutines are attributed to the agent by their creation site (a go statement in a non-harness file of the module)"],
 }
 PROPS["C05"] = {
-    "parts": [part("TestVerifC05", q=8, t=16, tq=900)],
+    "parts": [part("TestVerifC05", q=16, t=16, tq=900)],
     "level": "exploration",
     "engine": "E1 simnet",
     "technique": "scripted authenticated peer sends same-role Binding requests with chosen tie-breakers; verdict from the wire (487 / silence / success), the role attribute of the agent's next request and a before/after snapshot; system level: same-role starts under random schedules + C01's convergence oracle",
